@@ -37,6 +37,14 @@ ASSUMPTIONS = [
     'otherwise; _pause_resume_writing calls session.pause_writing / resume_writing, application code that is assumed '
     'not to call write() re-entrantly (the stub changes _send_paused only); write_eof() from _flush_recv_buf touches '
     'the send side only',
+    'back-pressure: 0 <= _send_low_water <= _send_high_water is established by set_write_buffer_limits (only writer of '
+    'the marks, under contract here; __init__ calls it); _send_buf_len == total_bytes(_send_buf) is required and '
+    'preserved by _flush_send_buf / _process_window_adjust; the other writers of the pair are write() (appends one '
+    'chunk and adds its length: under contract in C07, the equation is not re-proved there) and _close_send / '
+    '_discard (empty list, 0).  That an application stops writing after pause_writing() is the application\'s side of '
+    'the protocol; proved here is the channel\'s side: resume_writing() is called as soon as the buffered amount is at '
+    'or below the low-water mark (empty buffer included), at every point that changes the amount downwards '
+    '(_flush_send_buf, hence _process_window_adjust) or changes the marks (set_write_buffer_limits)',
     'channel.send_packet is abstracted at the emission site (ghost log): that it silently returns when _send_chan is '
     'None and may propagate errors of the connection is C07 (SSHChannel.send_packet contract), not restated here',
     'the readable extended data types of every channel class are a subset of {EXTENDED_DATA_STDERR} (class constants, '
@@ -112,11 +120,75 @@ chan_send_packet_stub.modifies = ('ghost_emitted',)
 
 
 def pause_resume_stub(cx):
+    """(abstract view kept for the sidecars that only need the frame: C07 / C09)"""
     p = cx.fresh('bool', 'send_paused')
     return [Out(sets={'_send_paused': p})]
 
 
 pause_resume_stub.modifies = ('_send_paused',)
+
+
+# ------------------------------------------------------------------ writer side back-pressure (no writer deadlock)
+# "never deadlocks ... every written byte is eventually delivered": an application that honours pause_writing() stops
+# writing until resume_writing() is called, so the channel must call it as soon as the buffered amount is at or below
+# the low-water mark (documented: "resumed when the write buffer size equals or drops below the low-water mark") -
+# in particular an empty buffer never leaves the writer paused, whatever marks were configured (0 <= low <= high).
+def water_inv(c, new=False):
+    f = c.new if new else c.old
+    return z3.And(0 <= f('_send_low_water'), f('_send_low_water') <= f('_send_high_water'))
+
+
+def acct_inv(c, new=False):
+    """the byte counter the water marks are compared with is the number of bytes in the send buffer"""
+    f = c.new if new else c.old
+    return f('_send_buf_len') == total(f('_send_buf'))
+
+
+def hysteresis(c):
+    n, lo, hi = c.old('_send_buf_len'), c.old('_send_low_water'), c.old('_send_high_water')
+    return c.new('_send_paused') == z3.If(n <= lo, z3.BoolVal(False), z3.If(n > hi, z3.BoolVal(True),
+                                                                            c.old('_send_paused')))
+
+
+def session_told(c):
+    """the session hears about every change of the flag, and only about changes"""
+    r, p = len(c.calls('resume_writing')), len(c.calls('pause_writing'))
+    went_off = z3.And(c.old('_send_paused'), z3.Not(c.new('_send_paused')))
+    went_on = z3.And(z3.Not(c.old('_send_paused')), c.new('_send_paused'))
+    if c.raised is not None:
+        return z3.BoolVal(r == 0 and p == 0)
+    return z3.And(z3.BoolVal(r + p <= 1), went_off == z3.BoolVal(r == 1), went_on == z3.BoolVal(p == 1))
+
+
+pause_resume_writing = Spec(
+    PROP, 'channel', 'SSHChannel._pause_resume_writing', self_class='SSHChannel', classes=CHAN_CLASSES,
+    stubs={'self._session.resume_writing': noop('resume_writing'), 'self._session.pause_writing': noop('pause_writing')},
+    requires=lambda c: water_inv(c),
+    modifies=['_send_paused'],
+    ensures=[('resumed-at-or-below-low-water,paused-above-high-water,unchanged-in-between', hysteresis),
+             ('at-or-below-low-water-the-writer-is-never-left-paused',
+              lambda c: z3.Implies(c.old('_send_buf_len') <= c.old('_send_low_water'), z3.Not(c.new('_send_paused'))))],
+    always=[('session-is-told-exactly-about-changes', session_told)],
+    # `assert self._session is not None`: a change is due on a channel that was already cleaned up
+    raises={'AssertionError': lambda c: c.is_none(c.oldv('_session'))})
+
+
+def limits_post(c):
+    return z3.And(water_inv(c, new=True), z3.BoolVal(len(c.calls('_pause_resume_writing')) == 1))
+
+
+set_write_buffer_limits = Spec(
+    PROP, 'channel', 'SSHChannel.set_write_buffer_limits', self_class='SSHChannel', classes=CHAN_CLASSES,
+    params=dict(high='opt[int]', low='opt[int]'),
+    stubs={'self._pause_resume_writing': contract_stub(lambda: pause_resume_writing)},
+    modifies=['_send_high_water', '_send_low_water', '_send_paused'],
+    ensures=[('marks-ordered(0<=low<=high);flag-re-evaluated-against-the-new-marks', limits_post),
+             ('at-or-below-low-water-the-writer-is-never-left-paused',
+              lambda c: z3.Implies(c.new('_send_buf_len') <= c.new('_send_low_water'), z3.Not(c.new('_send_paused'))))],
+    raises={'ValueError': lambda c: z3.And(c.new('_send_high_water') == c.old('_send_high_water'),
+                                           c.new('_send_low_water') == c.old('_send_low_water'),
+                                           c.new('_send_paused') == c.old('_send_paused')),
+            'AssertionError': lambda c: c.is_none(c.oldv('_session'))})
 
 
 def close_send_stub(cx):
@@ -142,7 +214,7 @@ def flush_lemmas(c):
     E = ex.get_field(h, c.self_ref, 'ghost_emitted').z
     B1 = c.new('_send_buf')
     E1 = c.new('ghost_emitted')
-    out = [S.ax_cons(B), S.ax_eta(B), S.ax_empty(), S.ok_cons(B), S.ok_empty()]
+    out = [S.ax_cons(B), S.ax_eta(B), S.ax_empty(), S.ok_cons(B), S.ok_empty(), total_cons(B), total_empty()]
     # emitted' = emitted ++ [x]
     if E1.decl().kind() == z3.Z3_OP_SEQ_CONCAT and E1.num_args() == 2 and E1.arg(0).eq(E):
         x = E1.arg(1).arg(0)
@@ -154,6 +226,7 @@ def flush_lemmas(c):
         y, T = ht
         out.append(S.ax_cons2(y, T))
         out.append(S.ok_cons2(y, T))
+        out.append(total(z3.Concat(z3.Unit(y), T)) == z3.Length(S.data_of(y)) + total(T))     # cons, constructor form
         if c.has_local('data'):
             data = c.local('data')
             rest = y.arg(0) if y.decl().name() == 'mk' else S.data_of(y)
@@ -173,12 +246,13 @@ def flush_lemma_obligations(c):
 
 flush_send_buf = Spec(
     PROP, 'channel', 'SSHChannel._flush_send_buf', self_class='SSHChannel', classes=CHAN_CLASSES,
-    stubs={'self.send_packet': chan_send_packet_stub, 'self._pause_resume_writing': pause_resume_stub,
+    stubs={'self.send_packet': chan_send_packet_stub,
+           'self._pause_resume_writing': contract_stub(lambda: pause_resume_writing),
            'self._close_send': close_send_stub},
     loops={1: LoopSpec(
         header='self._send_buf and self._send_window',
         modifies=['ghost_emitted'],
-        invariant=lambda c: z3.And(send_inv(c),
+        invariant=lambda c: z3.And(send_inv(c), acct_inv(c, new=True),
                                    c.new('_send_pktsize') == c.at_entry('_send_pktsize'),
                                    # the window is charged exactly for what went out
                                    c.new('_send_window') + total(c.new('ghost_emitted')) ==
@@ -186,10 +260,18 @@ flush_send_buf = Spec(
                                    conservation(c, c.at_entry('ghost_emitted'), c.at_entry('_send_buf'))),
         variant=lambda c: c.new('_send_window'),
         lemmas=flush_lemmas)},
-    requires=lambda c: send_inv(c, new=False),
+    requires=lambda c: z3.And(send_inv(c, new=False), water_inv(c), acct_inv(c)),
     modifies=['_send_buf', '_send_buf_len', '_send_window', '_send_state', '_send_paused', '_send_chan',
               'ghost_emitted'],
+    lemmas=lambda c: [total_empty()],
     ensures=[
+        # back-pressure: the flag is re-evaluated once, after the window was used up, against what is still buffered
+        ('writer-resumed-at-or-below-low-water', lambda c: z3.Implies(
+            c.new('_send_buf_len') <= c.new('_send_low_water'), z3.Not(c.new('_send_paused')))),
+        ('empty-buffer-never-leaves-the-writer-paused', lambda c: z3.Implies(
+            z3.Length(c.new('_send_buf')) == 0, z3.Not(c.new('_send_paused')))),
+        ('buffered-byte-count-is-exact', lambda c: acct_inv(c, new=True)),
+        ('pause-or-resume-decided-once-per-flush', lambda c: z3.BoolVal(len(c.calls('_pause_resume_writing')) == 1)),
         ('window-never-negative', lambda c: c.new('_send_window') >= 0),
         ('window-charged-exactly-for-the-bytes-emitted',
          lambda c: c.new('_send_window') == c.old('_send_window') - emitted_bytes(c)),
@@ -202,7 +284,8 @@ flush_send_buf = Spec(
                                 c.new('_send_state') == z3.StringVal('closed')),
                          conservation(c, c.old('ghost_emitted'), c.old('_send_buf')))),
         ('class-inv', lambda c: send_inv(c)),
-    ])
+    ],
+    raises={'AssertionError': lambda c: c.is_none(c.oldv('_session'))})
 
 
 # ------------------------------------------------------------------ window adjust
@@ -253,10 +336,14 @@ process_window_adjust = Spec(
     params=dict(_pkttype='int', _pktid='int', packet='obj:SSHPacket'),
     classes=dict(CHAN_CLASSES, **PACKET_CLASSES), inline=dict(PACKET_INLINE), truthy=PACKET_TRUTHY,
     stubs={'self._flush_send_buf': adjust_then_flush_stub},
-    requires=lambda c: z3.And(send_inv(c, new=False), packet_wf(c, c.argv('packet'))),
+    requires=lambda c: z3.And(send_inv(c, new=False), water_inv(c), acct_inv(c), packet_wf(c, c.argv('packet'))),
     ensures=[('class-inv', lambda c: send_inv(c)),
-             ('window-grows-only-by-adjust', window_adjust_post)],
-    raises={'ProtocolError': window_adjust_refused, 'PacketDecodeError': window_adjust_refused})
+             ('window-grows-only-by-adjust', window_adjust_post),
+             # new window may let buffered data out: the writer is resumed if that drained the buffer far enough
+             ('writer-resumed-at-or-below-low-water', lambda c: z3.Implies(
+                 c.new('_send_buf_len') <= c.new('_send_low_water'), z3.Not(c.new('_send_paused'))))],
+    raises={'ProtocolError': window_adjust_refused, 'PacketDecodeError': window_adjust_refused,
+            'AssertionError': lambda c: c.is_none(c.oldv('_session'))})
 
 
 # ------------------------------------------------------------------ receive side
